@@ -404,7 +404,7 @@ func nilCmp(cond ssa.Value, truth bool) (v ssa.Value, isNil bool, ok bool) {
 // errNilEdge: the edge is the "err == nil" edge for an error produced by a call matching m.
 func errNilEdge(cond ssa.Value, truth bool, m func(*ssa.Call) bool) bool {
 	v, isNil, ok := nilCmp(cond, truth)
-	if !ok || !isNil {
+	if !ok || !isNil || v.Type().String() != "error" {
 		return false
 	}
 	for _, o := range origins(v, 6) {
@@ -418,7 +418,7 @@ func errNilEdge(cond ssa.Value, truth bool, m func(*ssa.Call) bool) bool {
 // errNonNilEdge: the edge on which the error of a call matching m is non-nil.
 func errNonNilEdge(cond ssa.Value, truth bool, m func(*ssa.Call) bool) bool {
 	v, isNil, ok := nilCmp(cond, truth)
-	if !ok || isNil {
+	if !ok || isNil || v.Type().String() != "error" {
 		return false
 	}
 	for _, o := range origins(v, 6) {
